@@ -15,7 +15,16 @@ def F(x) -> Fraction:
         return x
     if isinstance(x, int):
         return Fraction(x)
-    return Fraction(float(x)) if not hasattr(x, "item") else Fraction(x.item())
+    v = x.item() if hasattr(x, "item") else x
+    if isinstance(v, int):
+        return Fraction(v)
+    v = float(v)
+    if math.isnan(v) or math.isinf(v):
+        # a number was required here: NaN / inf coming out of the code under test is a finding, not a harness error
+        from pbt.core import Violation
+
+        raise Violation("non_finite_value", f"expected a finite number, got {v!r}")
+    return Fraction(v)
 
 
 def pairs_of(bins) -> List[Tuple[float, float]]:
